@@ -20,6 +20,8 @@ def run_seed(sd, props, tier):
     try:
         (tmp / "src").mkdir()
         shutil.copytree("/repo/src/_gettsim", tmp / "src/_gettsim", ignore=shutil.ignore_patterns("__pycache__"))
+        (tmp / "src/_gettsim_tests").mkdir()
+        shutil.copy("/repo/src/_gettsim_tests/test_vectorization.py", tmp / "src/_gettsim_tests/test_vectorization.py")
         r = subprocess.run(["patch", "-p1", "--forward", "--no-backup-if-mismatch", "-i", str(sd / "patch.diff")], cwd=tmp, capture_output=True, text=True)
         if r.returncode != 0:
             return sd.name, {"PATCH": ("fail", r.stdout[-300:] + r.stderr[-200:])}
